@@ -560,6 +560,11 @@ func (g *vGen) step(kind string) vGenStep {
 	case "sign-attrs":
 		a := g.auditor()
 		p := g.providerActor()
+		if r.Chance(1, 3) {
+			// anybody may attest anybody: also the other way round, so that
+			// two accounts hold attestations of each other
+			a, p = p, a
+		}
 		attrs := vRandAttrs(r, 3)
 		if len(attrs) == 0 {
 			attrs = types.Attributes{{Key: vAttrKeys[r.Intn(3)], Value: vAttrVals[r.Intn(2)]}}
@@ -568,10 +573,14 @@ func (g *vGen) step(kind string) vGenStep {
 	case "delete-attrs":
 		a := g.auditor()
 		p := g.providerActor()
+		if r.Chance(1, 3) {
+			a, p = p, a
+		}
 		var keys []string
 		if rec, ok := g.h.last.Audits[p.Bech+"|"+a.Bech]; ok && r.Chance(2, 3) {
+			all := r.Chance(1, 3) // every key by name: the record becomes empty
 			for _, at := range rec.Attributes {
-				if r.Bool() {
+				if all || r.Bool() {
 					keys = append(keys, at.Key)
 				}
 			}
@@ -1173,6 +1182,40 @@ func vScenarios() []vScenario {
 				g.h.DoNote("tpl/close-group-dseq1", g.r.Intn(2), t, &dtypes.MsgCloseGroup{ID: dtypes.GroupID{Owner: t.Bech, DSeq: 1, GSeq: 1}})
 			}
 			g.h.DoNote("tpl/close-deployment-dseq1", g.r.Intn(3), t, &dtypes.MsgCloseDeployment{ID: ids[0]})
+		}},
+		// two accounts attest each other (and a third pair shares one of them);
+		// one of the records is then emptied key by key, emptied without keys,
+		// partly emptied, signed again: each message names one (owner, auditor)
+		// pair and nothing else may move
+		{"mutual-attestations", func(g *vGen) {
+			as := g.h.c.actors
+			x, y, z := as[g.r.Intn(len(as))], as[g.r.Intn(len(as))], as[g.r.Intn(len(as))]
+			if x == y || y == z || x == z {
+				x, y, z = g.h.actor("auditor", 0), g.h.actor("provider", 0), g.h.actor("auditor", 1)
+			}
+			at := func(keys ...string) types.Attributes {
+				var out types.Attributes
+				for _, k := range keys {
+					out = append(out, types.Attribute{Key: k, Value: vAttrVals[g.r.Intn(2)]})
+				}
+				return out
+			}
+			g.h.DoNote("tpl/x-attests-y", g.r.Intn(2), x, &atypes.MsgSignProviderAttributes{Owner: y.Bech, Auditor: x.Bech, Attributes: at("region", "tier")})
+			g.h.DoNote("tpl/y-attests-x", g.r.Intn(2), y, &atypes.MsgSignProviderAttributes{Owner: x.Bech, Auditor: y.Bech, Attributes: at("arch")})
+			g.h.DoNote("tpl/z-attests-y", g.r.Intn(2), z, &atypes.MsgSignProviderAttributes{Owner: y.Bech, Auditor: z.Bech, Attributes: at("region")})
+			g.h.DoNote("tpl/y-attests-z", g.r.Intn(2), y, &atypes.MsgSignProviderAttributes{Owner: z.Bech, Auditor: y.Bech, Attributes: at("tier", "arch")})
+			switch g.r.Intn(3) {
+			case 0:
+				g.h.DoNote("tpl/x-deletes-part-of-y", g.r.Intn(2), x, &atypes.MsgDeleteProviderAttributes{Owner: y.Bech, Auditor: x.Bech, Keys: []string{"tier"}})
+				g.h.DoNote("tpl/x-deletes-rest-of-y-by-key", g.r.Intn(2), x, &atypes.MsgDeleteProviderAttributes{Owner: y.Bech, Auditor: x.Bech, Keys: []string{"region"}})
+			case 1:
+				g.h.DoNote("tpl/x-deletes-all-of-y-by-keys", g.r.Intn(2), x, &atypes.MsgDeleteProviderAttributes{Owner: y.Bech, Auditor: x.Bech, Keys: []string{"region", "tier"}})
+			default:
+				g.h.DoNote("tpl/x-deletes-y", g.r.Intn(2), x, &atypes.MsgDeleteProviderAttributes{Owner: y.Bech, Auditor: x.Bech})
+			}
+			g.h.DoNote("tpl/y-deletes-all-of-z-by-keys", g.r.Intn(2), y, &atypes.MsgDeleteProviderAttributes{Owner: z.Bech, Auditor: y.Bech, Keys: []string{"arch", "tier"}})
+			g.h.DoNote("tpl/x-attests-y-again", g.r.Intn(2), x, &atypes.MsgSignProviderAttributes{Owner: y.Bech, Auditor: x.Bech, Attributes: at("arch")})
+			g.h.DoNote("tpl/y-deletes-x-by-key", g.r.Intn(2), y, &atypes.MsgDeleteProviderAttributes{Owner: x.Bech, Auditor: y.Bech, Keys: []string{"arch"}})
 		}},
 		{"audited-bids", func(g *vGen) {
 			t, p := g.h.actor("tenant", g.r.Intn(3)), g.h.actor("provider", g.r.Intn(3))
